@@ -2,18 +2,22 @@
 
 World: the real `Cascade` (and the `MAPKCascade` preset).  Every checkpoint,
 processor and error handler of a generated pipeline is a fake with one scripted
-behaviour; each fake records, at the moment it is called, (stage, role, signal
-it was handed, what it did).  Stage outputs are unique tokens that embed their
-input, so "the final output is the composition of the stage functions" is a
-string comparison.
+behaviour; each fake records, at the moment it is called, (which run() call it
+belongs to, stage, role, signal it was handed, what it did).  Stage outputs are
+unique tokens that embed their input — or, where the plan says so, the legitimate
+values None / 0 / "" / [] — so "the final output is the composition of the stage
+functions" is computed from the plan alone.
 
 Fault enumeration: the i-th run is the i-th case of a finite table (all one- and
 two-stage pipelines incl. amplification; in the thorough tier also all
-three-stage pipelines); beyond the table, pipelines of up to 5 stages and the
-MAPK preset are sampled.
+three-stage pipelines); beyond the table: sampled pipelines of up to 5 stages
+(incl. empty-string and duplicate stage names, None/0/""/[] outputs, observer
+callbacks), the MAPK preset, and a threads family (two tasks calling run() on
+one shared Cascade under the seeded line-granularity scheduler, checkpoints
+whose verdict differs per call).
 
 The oracle is a list of clause checks over the call log and the returned
-CascadeResult; it contains no executor of its own.
+CascadeResult, evaluated per run() call; it contains no executor of its own.
 """
 from __future__ import annotations
 
@@ -21,19 +25,21 @@ import itertools
 import math
 
 from opsim import seams
-from opsim.sched import SeqTracer
+from opsim.core import derive, HarnessError
+from opsim.sched import SeqTracer, Sched
 from opsim.util import call, plain, weighted, quiet
 
 from operon_ai.topology.cascade import Cascade, CascadeStage, MAPKCascade
 
 ID = "C19"
 LEVEL = "fault_enumeration"
-ENGINE = "seq"
+ENGINE = "seq+threads"
 
-GATES = ("absent", "pass", "reject", "raise")          # enumerated; "falsy" (returns None) is sampled in addition
+GATES = ("absent", "pass", "reject", "raise")          # enumerated; "falsy", "notnone", "percall" are sampled in addition
 PROCS = ("ok", "raise")
 HANDLERS = ("absent", "recover", "raise")
 AMPS = (0.5, 1.0, 2.0, 1000.0)
+OUTS = ("token", "none", "zero", "estr", "elist")       # what a processor / recovery handler returns
 NB = len(GATES) * len(PROCS) * len(HANDLERS) * 2        # 48 behaviour combinations per stage
 T1 = NB * 2 * len(AMPS)                                 # 384     one stage  x halt x amplification
 T2 = NB * NB * 2 * len(AMPS) ** 2                       # 73 728  two stages x halt x amplification^2
@@ -45,14 +51,20 @@ RULE = ("run i < table size is the i-th pipeline of the complete table {checkpoi
         "{processor ok/raise} x {error handler absent/recover/raise} x {required, optional} per stage (48 combinations) "
         "x halt_on_failure on/off: every 1-stage and 2-stage pipeline with every amplification assignment from "
         "{0.5,1,2,1000} (74 112 cases; quick and thorough) and, in the thorough tier, every 3-stage pipeline "
-        "(221 184 cases, amplification sampled); runs beyond the table sample pipelines of 1..5 stages (one or two faults "
-        "placed inside an otherwise passing pipeline, or uniform behaviours; checkpoints that return None; "
-        "max_amplification 100/3/1) and the MAPKCascade preset (stock, first tier removed, extra fake stage appended) on "
-        "inputs that pass, fail or crash its gates; non-trivial = at least one callback misbehaved when it was actually "
-        "called (a checkpoint returned false/None or raised, a processor or error handler raised) or a preset gate did "
-        "not pass; distinct = distinct (configuration, stage list)")
+        "(221 184 cases, amplification sampled); runs beyond the table sample (a) pipelines of 1..5 stages (one or two "
+        "faults placed inside an otherwise passing pipeline, or uniform behaviours; checkpoints that return None or that "
+        "test 'signal is not None'; processors / recovery handlers returning None, 0, '', []; stage names '' and "
+        "duplicates; max_amplification 100/3/1; recording or raising on_stage_complete / on_cascade_complete observers), "
+        "(b) the MAPKCascade preset (stock, first tier removed, extra fake stage appended) on inputs that pass, fail or "
+        "crash its gates, (c) threads: 2 tasks x 1-2 run() calls on one shared Cascade of 1-3 stages whose checkpoints "
+        "give a per-call verdict, under seeded schedules (serial, uniform, sticky, pct) with a decision at every source "
+        "line of cascade.py; non-trivial = at least one callback misbehaved when it was actually called (a checkpoint "
+        "returned false/None or raised, a processor or error handler raised) or a preset gate did not pass, and for "
+        "the threads family additionally a context switch away from a task inside run(); distinct = distinct "
+        "(configuration, stage list[, calls])")
 COMPONENTS = {"real": ["operon_ai.topology.cascade.Cascade", "operon_ai.topology.cascade.MAPKCascade (its own lambdas)"],
-              "stub": ["checkpoints, processors, error handlers of generated stages (logging fakes)", "time.time (virtual clock)"]}
+              "stub": ["checkpoints, processors, error handlers, observers of generated stages (logging fakes)",
+                       "time.time (virtual clock)", "threading.Lock (sim lock), the OS scheduler (seeded scheduler; threads family)"]}
 ASSUMPTIONS = [
     "'blocked or failed required stage' is read as: the halting demand is made only for required stages "
     "(a blocked optional stage may or may not halt)",
@@ -62,10 +74,17 @@ ASSUMPTIONS = [
     "an exception that escapes run() is not itself a violation (the stage did not run); only the call log is judged then",
     "MAPK preset stages cannot be observed from inside (they are the library's lambdas): they are judged on the "
     "input/output signals of the returned stage results against a re-statement of the preset's three functions",
+    "observer callbacks are outside the statement's quantifier: with a raising observer only the call-log clauses "
+    "(fail_closed, halt) are judged, not what the report says about the stage whose observer raised",
+    "threads family: every clause is per run() call (run() keeps all per-run state in locals; the statistics counters "
+    "on the object are not judged); pre-emption granularity is the source line",
 ]
 EXPECT_PROBES = ("gate_raise_nonhalt", "gate_reject_nonhalt", "gate_falsy", "halted_on_required_stage",
                  "optional_stage_failed", "recovered", "recovery_failed", "clamped", "success", "mapk_stock_success",
-                 "mapk_gate_blocked", "mapk_gate_raised", "five_stages")
+                 "mapk_gate_blocked", "mapk_gate_raised", "five_stages", "empty_stage_name_blocked_under_halt",
+                 "duplicate_stage_names", "none_output_handed_on", "falsy_output_handed_on", "success_with_none_final_output",
+                 "notnone_gate_blocked", "observer_raised", "threads_run", "threads_opposite_verdicts_same_stage",
+                 "threads_preempted_inside_run")
 
 MAPK_INPUTS = {
     "str": "hello", "none": None, "int": 7,
@@ -73,6 +92,7 @@ MAPK_INPUTS = {
     "inactive_tier2": {"active": False, "tier": 2}, "active_tier2": {"active": True, "tier": 2},
     "active_tier3": {"active": True, "tier": 3},
 }
+SCOPE = None
 
 
 class GateBoom(RuntimeError):
@@ -84,6 +104,10 @@ class ProcBoom(RuntimeError):
 
 
 class HandlerBoom(RuntimeError):
+    pass
+
+
+class ObserverBoom(RuntimeError):
     pass
 
 
@@ -119,7 +143,7 @@ def _table_case(i, rng, tier):
 
 def _sampled_stage(rng, faulty):
     if not faulty:
-        return {"gate": rng.choice(["absent", "pass", "pass"]), "proc": "ok",
+        return {"gate": rng.choice(["absent", "pass", "pass", "notnone"]), "proc": "ok",
                 "handler": rng.choice(HANDLERS), "required": rng.random() < 0.7, "amp": rng.choice(AMPS)}
     kind = weighted(rng, [(3, "gate"), (2, "proc"), (1, "both")])
     st = {"gate": rng.choice(["absent", "pass"]), "proc": "ok", "handler": rng.choice(HANDLERS),
@@ -131,13 +155,68 @@ def _sampled_stage(rng, faulty):
     return st
 
 
+def _decorate(rng, ops):
+    """Boundary identifiers and payloads: '' / duplicate stage names, None / 0 / '' / [] as stage outputs."""
+    if not ops:
+        return
+    r = rng.random()
+    if r < 0.16:                                   # one stage (preferably one that blocks or fails) is called ''
+        bad = [j for j, st in enumerate(ops) if st["gate"] in ("reject", "falsy", "raise") or st["proc"] == "raise"]
+        ops[rng.choice(bad) if bad and rng.random() < 0.8 else rng.randrange(len(ops))]["name"] = ""
+    elif r < 0.28 and len(ops) >= 2:               # duplicates
+        a, b = rng.sample(range(len(ops)), 2)
+        ops[a]["name"] = ops[b]["name"] = rng.choice(["x", "", "s0"])
+    elif r < 0.32:
+        for st in ops:
+            st["name"] = "same"
+    for st in ops:
+        if rng.random() < 0.22:
+            st["out"] = weighted(rng, [(4, "none"), (1, "zero"), (1, "estr"), (1, "elist")])
+        if st["handler"] == "recover" and rng.random() < 0.3:
+            st["rec"] = weighted(rng, [(3, "none"), (1, "zero"), (1, "estr"), (1, "elist")])
+
+
+def _threads_plan(rng, halt, max_amp):
+    n = rng.choice([1, 1, 2, 2, 3])
+    ops = []
+    for _ in range(n):
+        ops.append({"gate": weighted(rng, [(6, "percall"), (1, "pass"), (1, "absent")]),
+                    "proc": "raise" if rng.random() < 0.12 else "ok", "handler": rng.choice(HANDLERS),
+                    "required": rng.random() < 0.75, "amp": rng.choice(AMPS)})
+    if rng.random() < 0.15:
+        ops[rng.randrange(n)]["out"] = "none"
+    tasks = []
+    for t in range(2):
+        calls = []
+        for c in range(rng.choice([1, 1, 2])):
+            calls.append(["run", "ab"[t] + str(c),
+                          [weighted(rng, [(5, "pass"), (4, "reject"), (1, "raise"), (0.7, "falsy")]) for _ in range(n)]])
+        tasks.append(calls)
+    # bias: the two tasks' first calls disagree on some stage whose gate is per call
+    pc = [j for j, st in enumerate(ops) if st["gate"] == "percall"]
+    if pc and rng.random() < 0.7:
+        j = rng.choice(pc)
+        for q in range(j):
+            tasks[0][0][2][q] = tasks[1][0][2][q] = "pass"
+        a = rng.randrange(2)
+        tasks[a][0][2][j], tasks[1 - a][0][2][j] = "pass", rng.choice(["reject", "reject", "falsy"])
+    strat = dict(weighted(rng, [(1, {"kind": "serial"}), (6, {"kind": "uniform"}), (3, {"kind": "sticky", "p": 0.7}),
+                                (2, {"kind": "sticky", "p": 0.9}), (1, {"kind": "pct", "d": 1, "est": 80}),
+                                (1, {"kind": "pct", "d": 2, "est": 120}), (1, {"kind": "pct", "d": 3, "est": 150})]))
+    return {"config": {"halt": halt, "max_amp": max_amp, "family": "threads", "strategy": strat},
+            "ops": ops, "tasks": tasks}
+
+
 def gen(rng, tier, i):
     case = _table_case(i, rng, tier)
     if case is not None:
         return case
     halt = rng.random() < 0.5
     max_amp = weighted(rng, [(5, 100.0), (2, 3.0), (1, 1.0)])
-    if rng.random() < 0.18:
+    fam = rng.random()
+    if fam < 0.07:
+        return _threads_plan(rng, halt, max_amp)
+    if fam < 0.24:
         cfg = {"halt": halt, "max_amp": max_amp, "family": "mapk",
                "tiers": rng.choice([[10.0, 10.0, 10.0], [2.0, 2.0, 2.0], [0.5, 1000.0, 1.0], [1.0, 1.0, 1.0]]),
                "drop_first": rng.random() < 0.6}
@@ -146,6 +225,8 @@ def gen(rng, tier, i):
         ops = []
         if rng.random() < 0.5:
             ops.append(_sampled_stage(rng, rng.random() < 0.4))
+            if rng.random() < 0.15:
+                ops[0]["name"] = rng.choice(["MAPK", ""])
         return {"config": cfg, "ops": ops}
     lo = 3 if tier == "quick" else 4
     n = weighted(rng, [(1, 1), (1, 2), (3, lo), (3, 4), (4, 5)])
@@ -160,70 +241,126 @@ def gen(rng, tier, i):
             if st["gate"] == "reject" and rng.random() < 0.4:
                 st["gate"] = "falsy"
             ops.append(st)
-    return {"config": {"halt": halt, "max_amp": max_amp, "family": "sampled"}, "ops": ops}
+    _decorate(rng, ops)
+    cfg = {"halt": halt, "max_amp": max_amp, "family": "sampled"}
+    r = rng.random()
+    if r < 0.15:
+        cfg["observer"] = "record"
+    elif r < 0.22:
+        cfg["observer"], cfg["observer_at"] = "raise_stage", rng.randrange(n)
+    elif r < 0.25:
+        cfg["observer"] = "raise_cascade"
+    return {"config": cfg, "ops": ops}
 
 
 def simplify(plan):
     cfg = plan["config"]
     if cfg["max_amp"] != 100.0:
         yield {**plan, "config": {**cfg, "max_amp": 100.0}}
+    if cfg.get("observer"):
+        yield {**plan, "config": {k_: v for k_, v in cfg.items() if k_ not in ("observer", "observer_at")}}
     if cfg.get("family") == "mapk":
         if cfg["tiers"] != [1.0, 1.0, 1.0]:
             yield {**plan, "config": {**cfg, "tiers": [1.0, 1.0, 1.0]}}
     for j, st in enumerate(plan["ops"]):
+        for key in ("name", "out", "rec"):
+            if key in st:
+                ops = [dict(o) for o in plan["ops"]]
+                del ops[j][key]
+                yield {**plan, "ops": ops}
         for key, small in (("amp", 1.0), ("handler", "absent"), ("required", True), ("proc", "ok"), ("gate", "absent"),
                            ("gate", "pass")):
             if st[key] != small and not (key == "gate" and small == "pass" and st[key] == "absent"):
                 ops = [dict(o) for o in plan["ops"]]
                 ops[j][key] = small
                 yield {**plan, "ops": ops}
+    for ti, calls in enumerate(plan.get("tasks") or []):
+        for ci, cl in enumerate(calls):
+            for j, oc in enumerate(cl[2]):
+                if oc != "pass":
+                    nt = [[[c[0], c[1], list(c[2])] for c in t] for t in plan["tasks"]]
+                    nt[ti][ci][2][j] = "pass"
+                    yield {**plan, "tasks": nt}
 
 
 # --------------------------------------------------------------------------- the fakes
-class _Fakes:
-    """Scripted callbacks of one fake stage; everything they see goes to `log`."""
+def _val(kind, token):
+    return {"token": token, "none": None, "zero": 0, "estr": "", "elist": []}[kind or "token"]
 
-    def __init__(self, k, log, idx, st):
-        self.k, self.log, self.idx, self.st = k, log, idx, st
+
+class _World:
+    """One cascade under test: stage descriptors, the call log, who is calling."""
+
+    def __init__(self, k, plan):
+        self.k, self.plan = k, plan
+        self.cfg = plan["config"]
+        self.halt = bool(self.cfg["halt"])
+        self.hs = f"halt={self.halt}"
+        self.log = []            # (tag, stage index, role, signal handed, outcome, returned)
+        self.desc = []
+        self.tag = lambda: ("main", 0)
+        self.percall = {}        # tag -> per-stage gate outcomes
+        self.observed = []
+        self.observer_raised = False
+
+
+class _Fakes:
+    """Scripted callbacks of one fake stage; everything they see goes to the world's log."""
+
+    def __init__(self, w, idx, st, pos):
+        self.w, self.idx, self.st, self.pos = w, idx, st, pos
 
     def gate(self, signal):
+        w, k = self.w, self.w.k
         beh = self.st["gate"]
-        self.log.append((self.idx, "gate", signal, beh))
-        self.k.ev("gate", [self.idx, signal, beh])
+        tag = w.tag()
+        if beh == "percall":
+            oc = w.percall.get(tag, [])
+            beh = oc[self.pos] if self.pos < len(oc) else "pass"
+        elif beh == "notnone":
+            beh = "pass" if signal is not None else "reject"
+            if beh == "reject":
+                k.probe("notnone_gate_blocked")
+        w.log.append((tag, self.idx, "gate", signal, beh, None))
+        k.ev("gate", [self.idx, plain(signal), beh])
         if beh == "raise":
-            self.k.fault("collab_raise")
+            k.fault("collab_raise")
             raise GateBoom(f"gate{self.idx}")
         if beh == "reject":
-            self.k.fault("collab_adversarial_value")
+            k.fault("collab_adversarial_value")
             return False
         if beh == "falsy":
-            self.k.fault("collab_adversarial_value")
-            self.k.probe("gate_falsy")
+            k.fault("collab_adversarial_value")
+            k.probe("gate_falsy")
             return None
         return True
 
     def proc(self, signal):
+        w, k = self.w, self.w.k
         beh = self.st["proc"]
-        self.log.append((self.idx, "proc", signal, beh))
-        self.k.ev("proc", [self.idx, signal, beh])
+        ret = None if beh == "raise" else _val(self.st.get("out"), f"p{self.idx}({signal})")
+        w.log.append((w.tag(), self.idx, "proc", signal, beh, ret))
+        k.ev("proc", [self.idx, plain(signal), beh])
         if beh == "raise":
-            self.k.fault("collab_raise")
+            k.fault("collab_raise")
             raise ProcBoom(f"proc{self.idx}")
-        return f"p{self.idx}({signal})"
+        return ret
 
     def handler(self, exc):
+        w, k = self.w, self.w.k
         beh = self.st["handler"]
-        self.log.append((self.idx, "handler", type(exc).__name__, beh))
-        self.k.ev("handler", [self.idx, type(exc).__name__, beh])
+        ret = None if beh == "raise" else _val(self.st.get("rec"), f"r{self.idx}")
+        w.log.append((w.tag(), self.idx, "handler", type(exc).__name__, beh, ret))
+        k.ev("handler", [self.idx, type(exc).__name__, beh])
         if beh == "raise":
-            self.k.fault("collab_raise")
+            k.fault("collab_raise")
             raise HandlerBoom(f"handler{self.idx}")
-        return f"r{self.idx}"
+        return ret
 
 
-def _fake_stage(k, log, idx, st):
-    f = _Fakes(k, log, idx, st)
-    return CascadeStage(name=f"s{idx}", processor=f.proc, amplification=st["amp"],
+def _fake_stage(w, idx, st, pos):
+    f = _Fakes(w, idx, st, pos)
+    return CascadeStage(name=st.get("name", f"s{idx}"), processor=f.proc, amplification=st["amp"],
                         checkpoint=None if st["gate"] == "absent" else f.gate,
                         on_error=None if st["handler"] == "absent" else f.handler,
                         required=st["required"])
@@ -249,55 +386,85 @@ def _status(sr):
     return getattr(sr.status, "name", str(sr.status))
 
 
-# --------------------------------------------------------------------------- one run
-def run(plan, k):
-    cfg = plan["config"]
-    halt = bool(cfg["halt"])
-    hs = f"halt={halt}"
-    log: list = []
-    k.key = [cfg, plan["ops"]]
-    mapk = cfg.get("family") == "mapk"
+def _align(desc, stage_results):
+    """Stage results per stage: in-order match by name (names may be '' or duplicated)."""
+    per = [[] for _ in desc]
+    ptr = 0
+    for sr in stage_results:
+        j = next((q for q in range(ptr, len(desc)) if desc[q]["name"] == sr.stage_name), None)
+        if j is None:      # a second result of a stage already matched (raising observer / a mutant)
+            j = next((q for q in range(min(ptr, len(desc)) - 1, -1, -1) if desc[q]["name"] == sr.stage_name), None)
+            if j is None:
+                continue
+        else:
+            ptr = j + 1
+        per[j].append(sr)
+    return per
 
-    # ---- build the world: descriptors in pipeline order + the real cascade
-    desc = []            # {"name","fake":idx|None,"st":stage dict|None,"gate":fn|None,"fn":fn|None,"required","amp"}
-    if mapk:
+
+# --------------------------------------------------------------------------- building the world
+def _build(k, plan):
+    w = _World(k, plan)
+    cfg = w.cfg
+    kw = {}
+    obs = cfg.get("observer")
+    if obs in ("record", "raise_stage"):
+        def on_stage(sr, _n=[0]):
+            w.observed.append(("stage", sr.stage_name))
+            _n[0] += 1
+            if obs == "raise_stage" and _n[0] - 1 == cfg.get("observer_at", 0):
+                w.observer_raised = True
+                k.fault("collab_raise")
+                k.probe("observer_raised")
+                raise ObserverBoom("on_stage_complete")
+        kw["on_stage_complete"] = on_stage
+    if obs in ("record", "raise_cascade"):
+        def on_done(res):
+            w.observed.append(("cascade", bool(res.success)))
+            if obs == "raise_cascade":
+                w.observer_raised = True
+                k.fault("collab_raise")
+                k.probe("observer_raised")
+                raise ObserverBoom("on_cascade_complete")
+        kw["on_cascade_complete"] = on_done
+    if cfg.get("family") == "mapk":
         c = MAPKCascade(name="mapk", tier1_amplification=cfg["tiers"][0], tier2_amplification=cfg["tiers"][1],
                         tier3_amplification=cfg["tiers"][2], max_amplification=cfg["max_amp"],
-                        halt_on_failure=halt, silent=quiet())
+                        halt_on_failure=w.halt, silent=quiet(), **kw)
         tiers = list(zip(PRESET, cfg["tiers"]))
         if cfg["drop_first"]:
             if c.remove_stage("MAPKKK") is not True:
                 k.violation("preset", "first_tier_not_removable", "mapk")
-                return
+                return None, None
             tiers = tiers[1:]
         for (name, g, fn), amp in tiers:
-            desc.append({"name": name, "fake": None, "st": None, "gate": g, "fn": fn, "required": True, "amp": amp})
-        signal0 = MAPK_INPUTS[cfg["input"]]
-        signal0 = dict(signal0) if isinstance(signal0, dict) else signal0
+            w.desc.append({"name": name, "fake": None, "st": None, "gate": g, "fn": fn, "required": True, "amp": amp})
     else:
-        c = Cascade("sim", max_amplification=cfg["max_amp"], halt_on_failure=halt, silent=quiet())
-        signal0 = "s0"
-    base = len(desc)
+        c = Cascade("sim", max_amplification=cfg["max_amp"], halt_on_failure=w.halt, silent=quiet(), **kw)
+    base = len(w.desc)
     for j, st in enumerate(plan["ops"]):
         idx = base + j
-        c.add_stage(_fake_stage(k, log, idx, st))
-        desc.append({"name": f"s{idx}", "fake": idx, "st": st, "gate": None, "fn": None,
-                     "required": st["required"], "amp": st["amp"]})
-    n = len(desc)
-    if n == 0:
-        return
-    if n == 5:
+        stage = _fake_stage(w, idx, st, j)
+        c.add_stage(stage)
+        w.desc.append({"name": stage.name, "fake": idx, "st": st, "gate": None, "fn": None,
+                       "required": st["required"], "amp": st["amp"]})
+    names = [d["name"] for d in w.desc]
+    if len(set(names)) < len(names):
+        k.probe("duplicate_stage_names")
+    if len(w.desc) == 5:
         k.probe("five_stages")
+    return w, c
 
-    with SeqTracer(k, [seams.src("operon_ai/topology/cascade.py")], 20_000) as tr:
-        out = call(c.run, signal0, tracer=tr)
-    if out.kind == "step_budget":
-        k.violation("returns", "no_return_within_step_budget", hs)
-        return
-    if out.kind not in ("ok", "raised"):
-        k.violation("returns", out.kind, hs)
-        return
+
+# --------------------------------------------------------------------------- judging one run() call
+def _judge(w, tag, signal0, out):
+    """All clauses for one call of run(): `out` is its Outcome, the log entries carrying `tag` are its callbacks."""
+    k, desc, halt, hs, cfg = w.k, w.desc, w.halt, w.hs, w.cfg
+    n = len(desc)
+    log = [e[1:] for e in w.log if e[0] == tag]          # (stage, role, signal, outcome, returned)
+    mapk = cfg.get("family") == "mapk"
     res = out.value if out.kind == "ok" else None
+    results_judged = not w.observer_raised               # see ASSUMPTIONS
     if res is None:
         k.probe("run_raised")
         k.ev("result", out.brief())
@@ -311,6 +478,7 @@ def run(plan, k):
     fate = ["not_reached"] * n
     why = [""] * n
     touched = [False] * n
+    outval = [None] * n          # what the stage handed on (completed / recovered fakes)
     closed_violation = False
     for d_i, d in enumerate(desc):
         if d["fake"] is None:
@@ -326,7 +494,7 @@ def run(plan, k):
         handlers = [e for e in entries if e[1] == "handler"]
         if len(procs) > 1 or len(gates) > 1 or len(handlers) > 1:
             k.violation("success_def", "callback_ran_twice", hs,
-                        f"stage {idx}: {len(gates)} gate, {len(procs)} processor, {len(handlers)} handler calls")
+                        f"stage {idx}: {len(gates)} gate, {len(procs)} processor, {len(handlers)} handler calls in one run")
         # -- clause fail_closed: a processor call needs a true verdict of the stage's gate on that very signal
         for e in procs:
             if st["gate"] == "absent":
@@ -335,7 +503,7 @@ def run(plan, k):
             prior = [g for g in log[:pos] if g[0] == idx and g[1] == "gate"]
             if not prior:
                 k.violation("fail_closed", "ran_without_gate_verdict", f"{hs}:gate={st['gate']}",
-                            f"stage {idx} processed {e[2]!r}; its checkpoint was never asked")
+                            f"stage {idx} processed {e[2]!r}; its checkpoint was never asked in this run")
                 closed_violation = True
                 continue
             g = prior[-1]
@@ -345,7 +513,7 @@ def run(plan, k):
                             f"stage {idx} of {n}: checkpoint({g[2]!r}) -> {g[3]}, yet the processor ran on {e[2]!r}"
                             + (f"; run reported success={res.success} final_output={res.final_output!r}" if res is not None else ""))
                 closed_violation = True
-            elif g[2] != e[2]:
+            elif not _same(g[2], e[2]):
                 k.violation("fail_closed", "ran_on_other_signal", f"{hs}:gate=pass",
                             f"stage {idx}: checkpoint passed {g[2]!r} but the processor was handed {e[2]!r}")
                 closed_violation = True
@@ -357,10 +525,10 @@ def run(plan, k):
             else:
                 k.probe("gate_reject_nonhalt" if not halt else "gate_reject_halt")
         elif procs and procs[-1][3] == "ok":
-            fate[d_i] = "completed"
+            fate[d_i], outval[d_i] = "completed", procs[-1][4]
         elif procs:
             if handlers and handlers[-1][3] == "recover":
-                fate[d_i] = "recovered"
+                fate[d_i], outval[d_i] = "recovered", handlers[-1][4]
                 k.probe("recovered")
             else:
                 fate[d_i], why[d_i] = "failed", "proc=raise" + (":handler=raise" if handlers else "")
@@ -371,15 +539,16 @@ def run(plan, k):
         elif gates:
             # gate passed but the processor never ran (run() raised, or a mutant): nothing to hold against fail-closed
             fate[d_i], why[d_i] = "failed", "not_processed"
+        if fate[d_i] in ("blocked", "failed") and halt and d["name"] == "" and d["required"]:
+            k.probe("empty_stage_name_blocked_under_halt")
 
-    by_name = {}
+    per = [[] for _ in desc]
     if res is not None:
-        for sr in res.stage_results:
-            by_name.setdefault(sr.stage_name, []).append(sr)
+        per = _align(desc, res.stage_results)
         for d_i, d in enumerate(desc):
             if d["fake"] is not None:
                 continue
-            srs = by_name.get(d["name"], [])
+            srs = per[d_i]
             if not srs:
                 continue
             touched[d_i] = True
@@ -410,7 +579,7 @@ def run(plan, k):
                     k.violation("composition", "stage_output_not_stage_function", f"{hs}:preset",
                                 f"{d['name']}({sr.input_signal!r}) reported COMPLETED, the tier function raises {type(e).__name__}")
                     continue
-                fate[d_i] = "completed"
+                fate[d_i], outval[d_i] = "completed", want
                 if sr.output_signal != want:
                     k.violation("composition", "stage_output_not_stage_function", f"{hs}:preset",
                                 f"{d['name']}({sr.input_signal!r}) reported {sr.output_signal!r}, expected {want!r}")
@@ -434,18 +603,18 @@ def run(plan, k):
                     first = next((e for e in log if e[0] == desc[j]["fake"]), None)
                     role = first[1] if first else "stage_result"
                     k.violation("halt", "ran_after_" + fate[i], f"cause:{why[i]}",
-                                f"required stage {i} was {fate[i]} ({why[i]}) under halt_on_failure, "
-                                f"yet stage {j}'s {role} ran")
+                                f"required stage {i} (name {desc[i]['name']!r}) was {fate[i]} ({why[i]}) under "
+                                f"halt_on_failure, yet stage {j}'s {role} ran")
                 break
 
-    if res is None:
+    if res is None or not results_judged:
         return
 
     # ---- report must not call a stage completed that was not (the success rule counts these)
     done = [f in ("completed", "recovered") for f in fate]
     if not closed_violation:
         for i, d in enumerate(desc):
-            for sr in by_name.get(d["name"], []):
+            for sr in per[i]:
                 if _status(sr) == "COMPLETED" and not done[i] and d["fake"] is not None:
                     k.violation("success_def", "stage_reported_completed_without_completing", f"{hs}:{why[i] or fate[i]}",
                                 f"stage {i} is {fate[i]} by the call log but COMPLETED in the report")
@@ -466,25 +635,26 @@ def run(plan, k):
                 k.violation("success_def", "success_but_stage_results_not_all_completed_in_order", hs,
                             f"{[(sr.stage_name, _status(sr)) for sr in res.stage_results]}")
             else:
-                # the composition of the stage functions, from the plan alone
-                ok_comp, cur = True, signal0
+                # the composition of the stage functions: every stage was handed its predecessor's output, the
+                # last one's output is released — also when that output is None, 0, "" or []
+                cur, broken = signal0, None
                 for i, d in enumerate(desc):
                     if d["fake"] is None:
-                        sr = by_name[d["name"]][-1]
-                        if sr.input_signal != cur:
-                            ok_comp = False
-                            break
-                        cur = d["fn"](cur)
+                        handed = per[i][-1].input_signal
                     else:
-                        cur = f"p{d['fake']}({cur})" if fate[i] == "completed" else f"r{d['fake']}"
-                        procs = [e for e in log if e[0] == d["fake"] and e[1] == "proc"]
-                        if fate[i] == "completed" and procs[-1][2] != (prev_out if i else signal0):
-                            ok_comp = False
-                            break
-                    prev_out = cur
-                if not ok_comp or res.final_output != cur:
-                    k.violation("composition", "final_output_not_composition", hs,
-                                f"final_output={res.final_output!r}, composition of the stages gives {cur!r}")
+                        handed = next(e[2] for e in log if e[0] == d["fake"] and e[1] == "proc")
+                    if not _same(handed, cur):
+                        broken = f"stage {i} was handed {handed!r}, its predecessor produced {cur!r}"
+                        break
+                    if i + 1 < n and _boundary(outval[i]):
+                        k.probe("none_output_handed_on" if outval[i] is None else "falsy_output_handed_on")
+                    cur = outval[i]
+                if broken is None and not _same(res.final_output, cur):
+                    broken = f"final_output={res.final_output!r}, the last stage produced {cur!r}"
+                if broken is None and cur is None:
+                    k.probe("success_with_none_final_output")
+                if broken is not None:
+                    k.violation("composition", "final_output_not_composition", hs, broken)
         else:
             if not faults_seen and all(f == "completed" for f in fate):
                 k.violation("success_def", "fault_free_run_not_successful", hs,
@@ -493,7 +663,7 @@ def run(plan, k):
                 i = next((i for i in range(n) if not done[i]), 0)
                 k.violation("no_output", "output_released_without_success", hs,
                             f"success=False (stage {i}: {why[i] or fate[i]}) but final_output={res.final_output!r}")
-        if mapk and not cfg["drop_first"] and not plan["ops"]:
+        if mapk and not cfg["drop_first"] and not w.plan["ops"]:
             want = {"signal": signal0, "tier": 3, "active": True, "response": "ACTIVATED"}
             if res.success and res.final_output == want:
                 k.probe("mapk_stock_success")
@@ -531,10 +701,107 @@ def run(plan, k):
         # a normally completed stage reports its own factor
         for i, d in enumerate(desc):
             if fate[i] == "completed":
-                for sr in by_name.get(d["name"], []):
+                for sr in per[i]:
                     if _status(sr) == "COMPLETED" and not math.isclose(sr.amplification_factor, d["amp"]):
                         k.violation("amplification", "stage_factor_misreported", hs,
                                     f"stage {i}: factor {sr.amplification_factor!r}, configured {d['amp']!r}")
+
+
+def _same(a, b):
+    """Equality that keeps None, 0, '', [] and False apart."""
+    return type(a) is type(b) and a == b
+
+
+def _boundary(v):
+    return v is None or (isinstance(v, (int, str, list)) and not isinstance(v, bool) and not v)
+
+
+# --------------------------------------------------------------------------- one run
+def run(plan, k):
+    global SCOPE
+    if SCOPE is None:
+        SCOPE = [seams.src("operon_ai/topology/cascade.py")]
+    cfg = plan["config"]
+    if cfg.get("family") == "threads":
+        return _run_threads(plan, k)
+    k.key = [cfg, plan["ops"]]
+    w, c = _build(k, plan)
+    if w is None or not w.desc:
+        return
+    if cfg.get("family") == "mapk":
+        signal0 = MAPK_INPUTS[cfg["input"]]
+        signal0 = dict(signal0) if isinstance(signal0, dict) else signal0
+    else:
+        signal0 = "s0"
+    with SeqTracer(k, SCOPE, 20_000) as tr:
+        out = call(c.run, signal0, tracer=tr)
+    if out.kind == "step_budget":
+        k.violation("returns", "no_return_within_step_budget", w.hs)
+        return
+    if out.kind not in ("ok", "raised"):
+        k.violation("returns", out.kind, w.hs)
+        return
+    _judge(w, ("main", 0), signal0, out)
+
+
+def _run_threads(plan, k):
+    """Two tasks share one Cascade.  run() keeps its per-run state in locals, so every clause is judged per call."""
+    cfg = plan["config"]
+    w, c = _build(k, plan)
+    if w is None or not w.desc:
+        return
+    k.probe("threads_run")
+    sched = Sched(k, cfg.get("strategy"), switches=plan.get("switches"),
+                  rng=derive(plan.get("_seedpath", "replay"), "sched"), scope=SCOPE, max_steps=40_000)
+    w.tag = lambda: getattr(sched.cur, "op", None) or ("main", 0)
+    outs = {}
+
+    def body(ti, calls):
+        def f():
+            me = sched.cur
+            for ci, cl in enumerate(calls):
+                tag = (ti, ci)
+                w.percall[tag] = cl[2]
+                k.ev("inv", [ti, ci, cl[1]])
+                me.op = tag
+                out = call(c.run, cl[1])
+                me.op = None
+                k.ev("ret", [ti, ci, out.kind])
+                if out.kind not in ("ok", "raised"):
+                    raise HarnessError(f"unexpected outcome {out.kind} inside a scheduled task")
+                outs[tag] = (cl[1], out)
+        return f
+
+    for ti, calls in enumerate(plan["tasks"]):
+        sched.spawn(body(ti, calls), name=f"t{ti}")
+    sched.run()
+    plan["switches"] = sched.switches
+    k.steps += sched.steps
+    k.key = ["threads", {x: cfg[x] for x in cfg if x != "strategy"}, plan["ops"], plan["tasks"]]
+    for t in sched.tasks:
+        if t.exc is not None:
+            if isinstance(t.exc, HarnessError):
+                raise t.exc
+            raise HarnessError(f"task {t.name} died: {t.exc!r}")
+    v = sched.verdict
+    if v and v[0] == "deadlock":
+        k.violation("returns", "deadlock", "threads", " | ".join(v[1]))
+        return
+    if v and v[0] == "step_budget":
+        k.violation("returns", "no_return_within_step_budget", "threads")
+        return
+    firsts = [t[0][2] for t in plan["tasks"] if t]
+    if len(firsts) == 2 and any(st["gate"] == "percall" and j < len(firsts[0]) and j < len(firsts[1])
+                                and (firsts[0][j] == "pass") != (firsts[1][j] == "pass")
+                                for j, st in enumerate(plan["ops"])):
+        k.probe("threads_opposite_verdicts_same_stage")
+    for tag in sorted(outs):
+        sig, out = outs[tag]
+        _judge(w, tag, sig, out)
+    if sched.preempt_in_op > 0:
+        k.probe("threads_preempted_inside_run")
+    else:
+        k.nontrivial = False
 
 
 def coverage_extra(tier):
